@@ -56,6 +56,7 @@ class World:
 
         self.obj = {}
         self.ident = {}
+        self.dead = False       # a call into the library has hung: nothing more is asked of it
         for i in range(1, self.n + 1):
             kind = uni["kind"][i - 1]
             if kind == "job":
@@ -107,27 +108,41 @@ class World:
     def queries(self, qs, qa):
         s = self.obj[qs]
         out = {}
-        try:
-            out["cc"] = bool(s.check_cycles())
-            out["ccexc"] = "none"
-        except BaseException as exc:                    # pylint: disable=W0703
-            out["cc"] = False
-            out["ccexc"] = type(exc).__name__
-        try:
-            out["topo"] = self.ids(list(s.topological_order()))
-            out["topoexc"] = "none"
-        except BaseException as exc:                    # pylint: disable=W0703
-            out["topo"] = []
-            out["topoexc"] = type(exc).__name__
+        if self.dead:
+            out.update(cc=False, ccexc="WallClock", topo=[], topoexc="WallClock")
+        else:
+            try:
+                out["cc"] = bool(s.check_cycles())
+                out["ccexc"] = "none"
+            except BaseException as exc:                # pylint: disable=W0703
+                out["cc"] = False
+                out["ccexc"] = type(exc).__name__
+                self.dead = self.dead or isinstance(exc, WallClock)
+        if not self.dead:
+            try:
+                out["topo"] = self.ids(list(s.topological_order()))
+                out["topoexc"] = "none"
+            except BaseException as exc:                # pylint: disable=W0703
+                out["topo"] = []
+                out["topoexc"] = type(exc).__name__
+                self.dead = self.dead or isinstance(exc, WallClock)
+        else:
+            out.setdefault("topo", [])
+            out.setdefault("topoexc", "WallClock")
         starts = self.objs(qa)
 
         def guarded(key, fun):
             """a query that raises is recorded as the (impossible) answer [-1]"""
+            if self.dead:
+                out[key] = [-1]
+                return
             try:
                 out[key] = self.ids(list(fun()))
             except BaseException as exc:                # pylint: disable=W0703
                 out[key] = [-1]
                 out.setdefault("qexc", type(exc).__name__)
+                if isinstance(exc, WallClock):
+                    self.dead = True
         guarded("entry", s.entry_jobs)
         guarded("exit_t", s.exit_jobs)
         guarded("exit_f", lambda: s.exit_jobs(discard_forever=False))
@@ -159,14 +174,21 @@ class World:
                 s.successors_downstream(item)
                 list(s.exit_jobs())
             return seen
-        try:
-            out["topo_x"] = self.ids(topo_lazily())
-            out["topo_xexc"] = "none"
-        except BaseException as exc:                    # pylint: disable=W0703
-            out["topo_x"] = []
-            out["topo_xexc"] = type(exc).__name__
+        if self.dead:
+            out["topo_x"], out["topo_xexc"] = [], "WallClock"
+        else:
+            try:
+                out["topo_x"] = self.ids(topo_lazily())
+                out["topo_xexc"] = "none"
+            except BaseException as exc:                # pylint: disable=W0703
+                out["topo_x"] = []
+                out["topo_xexc"] = type(exc).__name__
+                self.dead = self.dead or isinstance(exc, WallClock)
         out.setdefault("qexc", "none")
-        out["len"] = len(s)
+        try:
+            out["len"] = len(s)
+        except BaseException:                           # pylint: disable=W0703
+            out["len"] = -1
         return out
 
     # -- resolution of "auto" steps against the current real state (the
@@ -251,6 +273,8 @@ class World:
         b_objs = self.objs(st.get("B", []))
         ret = "none"
         exc = "none"
+        if self.dead:
+            return ret, "WallClock"
         try:
             if op == "requires":
                 got = x.requires(*a_objs, remove=st["f1"])
@@ -296,6 +320,8 @@ class World:
                 exc = "unknown-op"
         except BaseException as err:                    # pylint: disable=W0703
             exc = type(err).__name__
+            if isinstance(err, WallClock):
+                self.dead = True
         return ret, exc
 
 
@@ -309,7 +335,7 @@ def _alarm(_signum, _frame):
 
 def run_history(item):
     signal.signal(signal.SIGALRM, _alarm)
-    signal.setitimer(signal.ITIMER_REAL, 15)
+    signal.setitimer(signal.ITIMER_REAL, 15, 15)
     try:
         return _run_history(item)
     finally:
